@@ -73,6 +73,9 @@ TDrop == /\ ItCall("drop")
 RECURSIVE EveryKth(_, _)
 EveryKth(s, k) == IF s = <<>> THEN <<>> ELSE <<s[1]>> \o (IF Len(s) <= k THEN <<>> ELSE EveryKth(SubSeq(s, k + 1, Len(s)), k))
 Reverse(s) == [i \in 1..Len(s) |-> s[Len(s) - i + 1]]
+\* decimal rendering of a small natural as code points; Debug of the iterator is `<Enum>Iter { len: <remaining> }`
+DecStr(n) == IF n < 10 THEN <<48 + n>> ELSE <<48 + (n \div 10), 48 + (n % 10)>>
+DebugOf(rem) == E.namecp \o <<73, 116, 101, 114, 32, 123, 32, 108, 101, 110, 58, 32>> \o DecStr(rem) \o <<32, 125>>
 TObs == /\ IsEvent("itobs")
         /\ LET e == Rec[l] IN
            IF e.h \in lost \/ e.h \notin DOMAIN its THEN TRUE
@@ -82,6 +85,7 @@ TObs == /\ IsEvent("itobs")
                               [] e.call = "take" -> IF n >= Len(rem) THEN rem ELSE SubSeq(rem, 1, n)
                               [] e.call = "rev" -> Reverse(rem)
                               [] e.call = "step_by" -> EveryKth(rem, n)
+                              [] e.call = "debug" -> DebugOf(Len(rem))
                 IN Require(~e.panic /\ e.items = want, l, "adapter " \o e.call,
                            [def |-> E.id, prof |-> e.prof, handle |-> e.h, arg |-> IF e.big THEN "big" ELSE ToString(e.n),
                             observed |-> e.items, panic |-> e.panic, expected |-> want])
